@@ -50,7 +50,8 @@ PROPS["C19"] = {
               {"name": "mdquery", "pkg": "c19", "chk": "chk_c19_mdquery", "args": ["mdquery"]}],
     "reasons": {"dispatch": {"1": "request handled by a different protocol handler than header token semantics prescribe"},
                 "mdquery": {"1": "query metadata contains an entry with an invalid key / non-printable value / not present in the query",
-                            "2": "param[...] key left in (or ordinary parameter missing from) the parameters bound to the message"}},
+                            "2": "param[...] key left in (or ordinary parameter missing from) the parameters bound to the message",
+                            "3": "a metadata entry of the query with a valid key and a printable value did not become request metadata (lost or duplicated; entries whose keys differ only in letter case must be merged)"}},
     "rule": "dispatch: header lines for Connection/Upgrade/Sec-WebSocket-Protocol/Content-Type drawn from pools of exact, mixed-case, token-list, multi-line, near-miss values, parsed by http.ReadRequest, served by WebBridge.ServeHTTP with a recording router; "
             "non-trivial = Connection or Content-Type present. mdquery: random url.Values mixing param[key] entries (valid/invalid keys, printable/control/non-ASCII values) with ordinary parameters; non-trivial = at least one param[...] key",
     "level_text": "Coq theorems: dispatch equals the RFC 7230 token-list semantics stated relationally (comma-split, OWS-trim, case-insensitive; exact sub-protocol match; lower-cased media type prefix), for all header multimaps; metadata extraction yields only valid keys/printable values that occur in the query and removes all param[...] keys while other parameters are unchanged; validity predicates equal the gRPC character classes on all 256 bytes. Tied to the code through WebBridge.ServeHTTP and an export shim of parseMetadataQuery.",
